@@ -8,6 +8,7 @@ import (
 	"log"
 	"os"
 	"strings"
+	"time"
 
 	"github.com/brocaar/lorawan"
 	"verifharness/internal/cases"
@@ -41,6 +42,8 @@ func mtype(up bool) lorawan.MType {
 
 // decodeStream reaches decodeDataPayloadToMACCommands through the exported method.
 func decodeStream(up bool, bs []byte) (s string) {
+	cases.Begin(fmt.Sprintf("DecodeFRMPayloadToMACCommands:up=%v:%x", up, bs), map[string]interface{}{"api": "PHYPayload.DecodeFRMPayloadToMACCommands", "uplink": up, "bytes": fmt.Sprintf("%x", bs)})
+	defer cases.End()
 	defer func() {
 		if r := recover(); r != nil {
 			s = cq.Panic
@@ -196,6 +199,7 @@ func main() {
 	s := cases.New("C07", dir, "LW.Corr.C07",
 		"round trips: per payload kind full-domain sweeps of single-byte fields, boundary+random for uint32/int8/int/Duration fields (in-range and out-of-range streams); command sequences of 1..40 commands up to 15 (FOpts) and 242 (FRMPayload) bytes per direction with built-in, proprietary-registered and payload-less CIDs; raw byte strings through the stream decoder; cumulative proprietary registration histories (CIDs 0..255, sizes 0..20; negative sizes are exercised by cmd/c09 in a child process) with registry probes. Non-trivial: sequences with >1 command, all other cases.")
 	s.ShardSize = 400
+	s.Watchdog(3 * time.Second)
 	nRT, nSeq, nRaw := 40, 120, 100
 	if thorough {
 		nRT, nSeq, nRaw = 900, 3000, 2500
